@@ -132,6 +132,21 @@ func (c *Ctx) TLSConfig(prop string) {
 		}
 		// ClientCAs: pool from NewCertPool, filled only by AppendCertsFromPEM(ca parameter), failure -> error
 		pool, ok := fields["ClientCAs"]
+		poolFn := fn
+		// the pool may be built by a helper handed the configured authority: every success result is one and the same pool
+		if rvs, isH := HelperSuccessResults(pool); ok && isH && len(rvs) > 0 {
+			var one ssa.Value
+			same := true
+			for _, rv := range rvs {
+				if one != nil && rv.Val != one {
+					same = false
+				}
+				one = rv.Val
+			}
+			if pc, isC := one.(*ssa.Call); same && isC {
+				pool, poolFn = pc, pc.Parent()
+			}
+		}
 		poolCall, isCall := pool.(*ssa.Call)
 		if !ok || !isCall || !IsCallTo(poolCall, "crypto/x509.NewCertPool") {
 			bad++
@@ -151,7 +166,7 @@ func (c *Ctx) TLSConfig(prop string) {
 				case "(*crypto/x509.CertPool).AppendCertsFromPEM":
 					nadd++
 					p, isParam := ci.Common().Args[1].(*ssa.Parameter)
-					if !isParam || p.Parent() != fn {
+					if !isParam || p.Parent() != poolFn {
 						bad++
 						c.R.Fail(rule, Fn(fn)+":ClientCAs", c.Pos(ci), "certificates other than the configured authority are added to the client CA pool: "+an.Term(ci.Common().Args[1]), "only the configured CA", nil)
 					}
